@@ -364,6 +364,14 @@ end
 @[simp] theorem evalBin_eqs (a b : Bytes) : evalBin .eq (.bytes a) (.bytes b) = .ok (.bool (a == b)) := id rfl
 @[simp] theorem evalBin_nes (a b : Bytes) : evalBin .ne (.bytes a) (.bytes b) = .ok (.bool (a != b)) := id rfl
 
+@[simp] theorem evalBin_eql (a b : List Val) : evalBin .eq (.list a) (.list b) = .ok (.bool (Val.beqs a b)) := id rfl
+@[simp] theorem evalBin_nel (a b : List Val) : evalBin .ne (.list a) (.list b) = .ok (.bool (!Val.beqs a b)) := id rfl
+@[simp] theorem beqs_nil_nil : Val.beqs [] [] = true := by simp [Val.beqs]
+@[simp] theorem beqs_nil_cons (b : Val) (bs : List Val) : Val.beqs [] (b :: bs) = false := by simp [Val.beqs]
+@[simp] theorem beqs_cons_nil (a : Val) (as : List Val) : Val.beqs (a :: as) [] = false := by simp [Val.beqs]
+@[simp] theorem beqs_cons_cons (a b : Val) (as bs : List Val) :
+    Val.beqs (a :: as) (b :: bs) = (Val.beq a b && Val.beqs as bs) := by simp [Val.beqs]
+@[simp] theorem beq_int (a b : Int) : Val.beq (.int a) (.int b) = (a == b) := by simp [Val.beq]
 @[simp] theorem lenVal_bytes (s : Bytes) : lenVal (.bytes s) = .ok (.int s.length) := id rfl
 @[simp] theorem lenVal_list (s : List Val) : lenVal (.list s) = .ok (.int s.length) := id rfl
 @[simp] theorem asInt_int (v : Int) : asInt (.int v) = .ok v := id rfl
